@@ -76,6 +76,8 @@ def _derived_from(cfg: CFG, rd, n: N, e: ast.AST, hname: str, depth: int = 0) ->
         return _derived_from(cfg, rd, n, e.value, hname, depth + 1)
     if isinstance(e, ast.BoolOp):
         return all(_derived_from(cfg, rd, n, v, hname, depth + 1) for v in e.values)
+    if isinstance(e, ast.IfExp):
+        return _derived_from(cfg, rd, n, e.body, hname, depth + 1) and _derived_from(cfg, rd, n, e.orelse, hname, depth + 1)
     return False
 
 
@@ -136,6 +138,19 @@ def classify_handler(ctx, f: FuncInfo, h: ast.ExceptHandler, tr: ast.Try) -> tup
                     verdicts.append(f"raises a new {src(e.func)} at line {n.lineno} instead of the original exception")
                     continue
                 if h.name and _derived_from(cfg, rd, n, e, h.name):
+                    # replacing the handled exception by its __cause__ is the unwrapping of the internal carrier and of
+                    # nothing else: a node's own 'raise X from low_level' must surface X, not low_level
+                    exprs_ = [e] + ([v for d, v in defs_reaching(cfg, rd, n, e.id) if v is not None and not isinstance(v, ast.ExceptHandler)] if isinstance(e, ast.Name) else [])
+                    unwraps = [x for ex_ in exprs_ for x in ast.walk(ex_) if isinstance(x, ast.Attribute) and x.attr == "__cause__"]
+                    if unwraps:
+                        from .common import enclosing_facts
+
+                        hnames = {x.split(".")[-1] for x in cfg._handler_names(h)}
+                        carrier_only = hnames == {"ExecutionError"} or all(any(pol and isinstance(a_, ast.Call) and dotted(a_.func) == "isinstance" and "ExecutionError" in src(a_) for a_, pol in enclosing_facts(u)) for u in unwraps)
+                        if not carrier_only:
+                            ok = False
+                            verdicts.append(f"line {n.lineno}: raises the handled exception's __cause__ although the handled exception need not be the internal carrier: a node raising 'X from low_level' surfaces low_level instead of X")
+                            continue
                     verdicts.append("re-raises the handled exception (or its unwrapped cause)")
                     continue
                 # `raise first_error` style: a value that is itself an exception taken from results
@@ -183,6 +198,20 @@ def run(ctx) -> None:
                     if cal.func is not None and cal.func in reach:
                         reaches_user = True
             if not reaches_user:
+                # the node's code also runs while what its function returned is consumed: a generator body executes
+                # inside list(result) / for x in result / async for, a returned coroutine inside 'await result'
+                uvars = {t.id for n_ in walk_local(f.node) if isinstance(n_, ast.Assign) for t in n_.targets if isinstance(t, ast.Name) and any(isinstance(c_, ast.Call) and is_user_func_call(db, c_, f) for c_ in ast.walk(n_.value))}
+                for s_ in tr.body:
+                    for x in [s_] + list(walk_local(s_)):
+                        if isinstance(x, (ast.For, ast.AsyncFor)) and isinstance(x.iter, ast.Name) and x.iter.id in uvars:
+                            reaches_user = True
+                        if isinstance(x, ast.Await) and isinstance(x.value, ast.Name) and x.value.id in uvars:
+                            reaches_user = True
+                        if isinstance(x, ast.Call) and (dotted(x.func) or "") in ("list", "tuple", "next", "sorted", "set") and x.args and isinstance(x.args[0], ast.Name) and x.args[0].id in uvars:
+                            reaches_user = True
+                        if isinstance(x, (ast.ListComp, ast.GeneratorExp, ast.SetComp)) and any(isinstance(g_.iter, ast.Name) and g_.iter.id in uvars for g_ in x.generators):
+                            reaches_user = True
+            if not reaches_user:
                 continue
             cfg = ctx.cfg(f, runner_no_raise(db))
             for i, h in enumerate(tr.handlers):
@@ -224,6 +253,10 @@ def run(ctx) -> None:
                             cause_assign = True
                         if isinstance(b.value, ast.Attribute) and b.value.attr == "partial_state" and src(b.value.value) == hname:
                             state_assign = True
+        # ... by presence: 'e.__cause__ or e' keeps the carrier when the node's exception is falsy (defines __len__/__bool__)
+        by_truth = [b for n in [x for s_ in h.body for x in [s_] + list(walk_local(s_))] if isinstance(n, ast.Assign) for b in [n.value] if isinstance(b, ast.BoolOp) and isinstance(b.op, ast.Or) and any(isinstance(v_, ast.Attribute) and v_.attr == "__cause__" for v_ in b.values)]
+        by_truth += [b for n in [x for s_ in h.body for x in [s_] + list(walk_local(s_))] if isinstance(n, ast.Assign) for b in [n.value] if isinstance(b, ast.IfExp) and isinstance(b.test, ast.Attribute) and b.test.attr == "__cause__"]
+        rep.add("C11.R2", f"{m.qname}:unwrap-by-presence", not by_truth, f"{m.module.rel}:{by_truth[0].lineno if by_truth else h.lineno}", "the carrier is replaced by its cause whenever it has one" if not by_truth else f"'{src(by_truth[0])}' chooses between the cause and the carrier by the cause's truth value: a node exception that is falsy (defines __len__ or __bool__) is surfaced as the internal ExecutionError wrapper")
         rep.add("C11.R2", f"{m.qname}:unwrap-cause", cause_assign, f"{m.module.rel}:{h.lineno}", "carrier is replaced by its __cause__" if cause_assign else "the ExecutionError carrier is not unwrapped to its cause")
         rep.add("C11.R2", f"{m.qname}:take-partial-state", state_assign, f"{m.module.rel}:{h.lineno}", "partial state is taken from the carrier" if state_assign else "partial state is not taken from the carrier")
         # (b) raise error from None, error derived from e
